@@ -5,6 +5,7 @@ import Pyunicorn.Lemmas.NetCore
 import Pyunicorn.Lemmas.NetCoreFull
 import Pyunicorn.Lemmas.NetBetwPaths
 import Pyunicorn.Lemmas.NetBetwAsm
+import Pyunicorn.Lemmas.NetBetwKernel
 import Pyunicorn.Lemmas.NetRW
 import Pyunicorn.Generated.ArithC03
 /-!
@@ -921,10 +922,220 @@ theorem nsiBetweenness_eq_def_partial (n : Nat) (a : Adj) (w : Nat → Rat) (isS
     nsiBetweenness n a w isSrc targets = nsiBetweennessDef n a w (dist n a) isSrc targets :=
   nsiBetweenness_assembly n a w isSrc targets (dist n a) h
 
+/-! #### round 5: the kernel proof in full -/
+
+/-- **forward phase of `_nsi_betweenness`** (BFS from target `j` over `flat_neighbors`, recording
+`distances_to_j`, the flat predecessor array with its `offsets` stride and the weighted multiplicities):
+on the arrays the wrapper hands over, for every undirected network, every weight vector and every target
+`j < N`, the loop `while qi < queue_len` (fuel `N`) ends with — the queue = every node reachable from `j`,
+once, in the order of non-decreasing true shortest-path distance, `j` first; `distances_to_j` = the BFS
+distance of `path_lengths` (`2N` where unreachable); `multiplicity_to_j[v] = σ_jv`, the weighted number of
+shortest paths (= sum over enumerated paths by `pathCount_eq_enumeration`); and
+`flat_predecessors[offsets[l] : offsets[l] + n_predecessors[l]]` = the predecessors of `l` of the
+definition, in queue order.  Symmetry of `A` is what keeps the writes to `flat_predecessors` inside the
+slice of `l` (a node has at most `k[l]` predecessors). -/
+theorem nsiBetweenness_forward_phase (n : Nat) (a : Adj) (hsym : ∀ x y, a x y = a y x) (w : Nat → Rat)
+    (j : Nat) (hj : j < n) :
+    FwdOK n a w j (offsetsOf (degArr n a))
+      (forward (offsetsOf (degArr n a)) (degArr n a) (flatArr n a) w n 0
+        (fwdInit n w (flatArr n a).length j)) :=
+  forward_fwdOK n a hsym w j hj
+
+/-- **backward sweep of `_nsi_betweenness`**: run over the reversed queue of any state satisfying the
+forward phase's postcondition, the loop leaves in `betweenness_to_j` a solution of Brandes' accumulation
+recursion `β(l) = e(l) + Σ_{l' : l predecessor of l'} β(l')·(w(l')/σ(l'))·σ(l)`, `β(j) = 0`, `β = e` on
+unreachable nodes, and in `excess_to_j` the initial `is_source·w` (0 at `j`). -/
+theorem nsiBetweenness_backward_sweep (n : Nat) (a : Adj) (w : Nat → Rat) (isSrc : List Bool) (j : Nat)
+    (hj : j < n) (offsets : List Nat) (s : Fwd) (h : FwdOK n a w j offsets s) :
+    let be := s.queue.reverse.foldl (back offsets w j s) (excessInit n w isSrc, excessInit n w isSrc)
+    BrandesSol n a w isSrc j (fun l => be.1.getD l 0) ∧
+      (∀ l, l < n → be.2.getD l 0 = if l = j then 0 else excess w isSrc l) :=
+  back_brandesSol n a w isSrc j hj offsets s h
+
+/-- **the accumulation recursion has the pair-dependency sum as its only solution** (positive node
+weights): `β(l) − e(l) = Σ_{s source, s ≠ l, reachable} w_s σ_js(l)/σ_js` for every `l ≠ j`.  Rests on the
+first-link decomposition `σ_js(l) = [s = l]σ_jl + Σ_{l' successor of l} σ_jl (w_l'/σ_jl') σ_js(l')`
+(`thru_first_link`). -/
+theorem brandes_recursion_unique (n : Nat) (a : Adj) (w : Nat → Rat) (isSrc : List Bool) (j : Nat)
+    (hj : j < n) (hw : ∀ v, v < n → 0 < w v) (β : Nat → Rat) (hβ : BrandesSol n a w isSrc j β) :
+    ∀ l, l < n → l ≠ j → β l - excess w isSrc l = contribDef n a w (dist n a) isSrc j l :=
+  brandesSol_eq_contribDef n a w isSrc j hj hw (DistL.dist_self n a j hj)
+    (fun l hl h => dist_zero_eq n a j l hj hl h)
+    (fun l k hl h => dist_succ_pred n a j l k hj hl h)
+    (fun l k hl h => DistL.dist_lt n a j l k hj hl h) β hβ
+
+/-- **kernel `_nsi_betweenness` (with its wrapper) = the published pair-dependency definition**, with no
+per-case hypothesis: for every undirected network (symmetric `A`; loops allowed or not), positive node
+weights, every source mask and every list of targets `< N` (any order, repetitions counted as the kernel
+counts them), `Network._nsi_betweenness` returns
+`b_v = (1/w_v) Σ_{t ∈ targets} Σ_{s source, s ≠ v ≠ t} w_t w_s σ_ts(v)/σ_ts`
+(unit weights: interregional betweenness; all nodes as sources and targets: twice the shortest-path
+betweenness).  This closes `nsiBetweenness_eq_def_partial`. -/
+theorem nsiBetweenness_eq_def (n : Nat) (a : Adj) (hsym : ∀ x y, a x y = a y x) (w : Nat → Rat)
+    (hw : ∀ v, v < n → 0 < w v) (isSrc : List Bool) (targets : List Nat)
+    (ht : ∀ j, j ∈ targets → j < n) :
+    nsiBetweenness n a w isSrc targets = nsiBetweennessDef n a w (dist n a) isSrc targets :=
+  nsiBetweenness_eq_def_full n a hsym w hw isSrc targets ht
+
+/-- **the kernel against the definition by enumeration**: under the hypotheses of `nsiBetweenness_eq_def`,
+entry `v` of `Network._nsi_betweenness` is
+`(1/w_v) Σ_{t ∈ targets, t ≠ v} w_t Σ_{s source, s ≠ v} w_s · (Σ_{p shortest t–s path, v ∈ p} Π_{x ∈ p} w_x) /
+(Σ_{p shortest t–s path} Π_{x ∈ p} w_x)` with both sums running over the explicitly enumerated shortest
+paths (`shortestPaths`) — no recursion on the right-hand side. -/
+theorem nsiBetweenness_eq_enumeration (n : Nat) (a : Adj) (hsym : ∀ x y, a x y = a y x) (w : Nat → Rat)
+    (hw : ∀ v, v < n → 0 < w v) (isSrc : List Bool) (targets : List Nat)
+    (ht : ∀ j, j ∈ targets → j < n) (v : Nat) (hv : v < n) :
+    (nsiBetweenness n a w isSrc targets).getD v 0
+      = nsiBetweennessEnum n a w (dist n a) isSrc targets v := by
+  rw [nsiBetweenness_eq_def n a hsym w hw isSrc targets ht]
+  exact nsiBetweennessDef_getD_enum n a w (dist n a) isSrc targets v hv
+
+/-! #### the public methods on top of the kernel -/
+
+/-- **`Network.nsi_betweenness(sources, targets)`** (default `nsi=True`, explicit node lists): the
+published n.s.i. betweenness with the network's node weights, sources as a set, targets as listed. -/
+theorem nsiBetweennessApi_eq_def (n : Nat) (a : Adj) (hsym : ∀ x y, a x y = a y x) (nodeW : Nat → Rat)
+    (hw : ∀ v, v < n → 0 < nodeW v) (S T : List Nat) (hT : ∀ t, t ∈ T → t < n) :
+    apiBetweenness n a nodeW (some S) (some T) true
+      = nsiBetweennessDef n a nodeW (dist n a) (srcMaskOf n (some S)) T := by
+  unfold apiBetweenness
+  exact nsiBetweenness_eq_def n a hsym nodeW hw _ T hT
+
+/-- **`interregional_betweenness(sources=S, targets=T)[v]` is the published count**
+`Σ_{t ∈ T, t ≠ v} Σ_{s ∈ S, s ≠ v} #(shortest t–s paths through v) / #(shortest t–s paths)` over the
+explicitly enumerated shortest paths — whatever node weights the network carries (`nsi=False` replaces
+them by ones), for every undirected network. -/
+theorem interregionalBetweenness_eq_count (n : Nat) (a : Adj) (hsym : ∀ x y, a x y = a y x)
+    (nodeW : Nat → Rat) (S T : List Nat) (hT : ∀ t, t ∈ T → t < n) (v : Nat) (hv : v < n) :
+    (interregionalBetweenness n a nodeW (some S) (some T)).getD v 0
+      = interregionalCount n a (dist n a) S T v := by
+  unfold interregionalBetweenness apiBetweenness
+  simp only [Bool.false_eq_true, if_false, Option.getD_some]
+  rw [nsiBetweenness_eq_enumeration n a hsym (fun _ => 1) (fun _ _ => by decide) _ T hT v hv]
+  exact enum_unit n a (dist n a) S T v
+
+/-- the defaults: `interregional_betweenness()` sums over all ordered pairs of nodes (on an undirected
+network: twice the shortest-path betweenness, the docstring's comparison) -/
+theorem interregionalBetweenness_default (n : Nat) (a : Adj) (hsym : ∀ x y, a x y = a y x)
+    (nodeW : Nat → Rat) (v : Nat) (hv : v < n) :
+    (interregionalBetweenness n a nodeW none none).getD v 0
+      = interregionalCount n a (dist n a) (List.range n) (List.range n) v := by
+  have h := interregionalBetweenness_eq_count n a hsym nodeW (List.range n) (List.range n)
+    (fun t ht => List.mem_range.mp ht) v hv
+  rw [← h]
+  unfold interregionalBetweenness apiBetweenness
+  rw [srcMaskOf_none]
+  rfl
+
 end Betweenness
 
 /-! ### translator tie: the size expressions of the model are the ones in the current source
 (`Pyunicorn.Generated.ArithC03` is regenerated from `network.py` by `translate/gen_arith.py` on every run) -/
+
+
+/-! #### translator tie of the kernel `_nsi_betweenness` (round 5): the model's loops written with the
+conditions, index and range expressions regenerated from the current `numerics.pyx` -/
+
+section KernelTie
+open Pyunicorn.NetBetw Pyunicorn.Generated
+
+/-- `relax` (body of `for l_index in range(oi, oi+k[i])`) with `if dl >= next_d`,
+`fi = offsets[l] + n_predecessors[l]`, `if dl > next_d` of the current source -/
+theorem nsiKernel_relax_tie (offsets : List Nat) (w : Nat → Rat) (i nextD : Nat) (s : Fwd) (l : Nat) :
+    relax offsets w i nextD s l =
+      (let dl := s.dist.getD l 0
+       if ArithC03.nsiOnShortestPath dl nextD then
+         let fi := (ArithC03.nsiPredIndex (offsets.getD l 0) (s.npred.getD l 0)).toNat
+         let s1 : Fwd := { s with
+           npred := s.npred.set l (s.npred.getD l 0 + 1)
+           fpred := s.fpred.set fi i
+           mult := s.mult.set l (s.mult.getD l 0 + w l * s.mult.getD i 0) }
+         if ArithC03.nsiFirstVisit dl nextD then
+           { s1 with dist := s1.dist.set l nextD, queue := s1.queue ++ [l] }
+         else s1
+       else s) := by
+  unfold relax
+  simp only [ArithC03.nsiOnShortestPath, ArithC03.nsiPredIndex, ArithC03.nsiFirstVisit, ge_iff_le, gt_iff_lt,
+    Nat.cast_le, Nat.cast_lt, decide_eq_true_eq, ← Nat.cast_add, Int.toNat_natCast]
+
+/-- one iteration of `while qi < queue_len` with `next_d = distances_to_j[i] + 1` and the loop range
+`range(oi, oi+k[i])` of the current source -/
+theorem nsiKernel_forward_tie (offsets k flat : List Nat) (w : Nat → Rat) (fuel qi : Nat) (s : Fwd) :
+    forward offsets k flat w (fuel + 1) qi s =
+      (if qi < s.queue.length then
+        let i := s.queue.getD qi 0
+        let nextD := (ArithC03.nsiNextD (s.dist.getD i 0)).toNat
+        let oi := offsets.getD i 0
+        let ls := (flat.take (ArithC03.nsiInnerHi oi (k.getD i 0)).toNat).drop oi
+        forward offsets k flat w fuel (qi + 1) (ls.foldl (relax offsets w i nextD) s)
+      else s) := by
+  simp only [forward, ArithC03.nsiNextD, ArithC03.nsiInnerHi, ← Nat.cast_add, Int.toNat_natCast,
+    take_drop_eq]
+  rfl
+
+/-- the backward step with `if l == j`, `base_factor = w[l] / multiplicity_to_j[l]` and
+`range(ol, ol+n_predecessors[l])` of the current source -/
+theorem nsiKernel_back_tie (offsets : List Nat) (w : Nat → Rat) (j : Nat) (s : Fwd)
+    (be : List Rat × List Rat) (l : Nat) :
+    back offsets w j s be l =
+      (if ArithC03.nsiBackIsRoot l j then (be.1.set l 0, be.2.set l 0)
+       else
+        let base := ArithC03.nsiBaseFactor (w l) (s.mult.getD l 0)
+        let ol := offsets.getD l 0
+        let ps := (s.fpred.take (ArithC03.nsiBackHi ol (s.npred.getD l 0)).toNat).drop ol
+        (ps.foldl (fun b i => b.set i (b.getD i 0 + b.getD l 0 * base * s.mult.getD i 0)) be.1, be.2)) := by
+  simp only [back, ArithC03.nsiBackIsRoot, ArithC03.nsiBaseFactor, ArithC03.nsiBackHi, ← Nat.cast_add,
+    Int.toNat_natCast, take_drop_eq, Nat.cast_inj, decide_eq_true_eq]
+
+/-- `distances_to_j.fill(2 * N)` -/
+theorem nsiKernel_sentinel_tie (n : Nat) (w : Nat → Rat) (T j : Nat) :
+    (fwdInit n w T j).dist = (List.replicate n (ArithC03.nsiSentinel n).toNat).set j 0 := by
+  simp only [fwdInit, ArithC03.nsiSentinel]
+  congr 2
+
+/-- `offsets[i] = offsets[i-1] + k[i-1]` -/
+theorem nsiKernel_offsets_tie (k : List Nat) (i : Nat) (hi : i + 1 < k.length) :
+    ((offsetsOf k).getD (i + 1) 0 : Int)
+      = ArithC03.nsiOffsetStep ((offsetsOf k).getD i 0) (k.getD i 0) := by
+  rw [offsetsOf_getD k (i + 1) hi, offsetsOf_getD k i (by omega), sum_take_succ_getD]
+  simp [ArithC03.nsiOffsetStep]
+
+/-- `betweenness_times_w += w[j] * (betweenness_to_j - excess_to_j)`, entry by entry -/
+theorem nsiKernel_accumulate_tie (n : Nat) (offsets k flat : List Nat) (w : Nat → Rat) (isSrc : List Bool)
+    (acc : List Rat) (j l : Nat) (hl : l < n) :
+    ((List.range n).map fun l => acc.getD l 0 + (target n offsets k flat w isSrc j).getD l 0).getD l 0
+      = (let s := forward offsets k flat w n 0 (fwdInit n w flat.length j)
+         let be := s.queue.reverse.foldl (back offsets w j s) (excessInit n w isSrc, excessInit n w isSrc)
+         ArithC03.nsiAccumulate (acc.getD l 0) (w j) (be.1.getD l 0) (be.2.getD l 0)) := by
+  rw [getD_map_range_rat n _ l hl, target_unfold]
+  simp only [ArithC03.nsiAccumulate]
+  rw [getD_map_range_rat n _ l hl]
+
+/-- `for ql in range(queue_len-1, -1, -1)` starts at the last queue entry -/
+theorem nsiKernel_backstart_tie (s : Fwd) (h : s.queue ≠ []) :
+    s.queue.reverse.head? = s.queue[(ArithC03.nsiBackStart s.queue.length).toNat]? := by
+  simp only [ArithC03.nsiBackStart, List.head?_reverse]
+  rw [List.getLast?_eq_getElem?]
+  congr 1
+  have : 0 < s.queue.length := List.length_pos_iff.mpr h
+  omega
+
+/-- `for ql in range(queue_len-1, -1, -1)`: the indices `queue_len-1, …, 0` with stride `-1`, i.e. the
+model's `s.queue.reverse` -/
+theorem nsiKernel_backrange_tie (s : Fwd) :
+    s.queue.reverse = ((List.range (ArithC03.nsiBackStart s.queue.length - ArithC03.nsiBackStop).toNat).reverse.map
+      fun ql => s.queue.getD ql 0) ∧ ArithC03.nsiBackStride = -1 := by
+  refine ⟨?_, rfl⟩
+  have h : (ArithC03.nsiBackStart s.queue.length - ArithC03.nsiBackStop).toNat = s.queue.length := by
+    simp only [ArithC03.nsiBackStart, ArithC03.nsiBackStop]; omega
+  rw [h, List.map_reverse]
+  congr 1
+  apply List.ext_getElem
+  · simp
+  · intro i h1 h2
+    simp [List.getD, h1]
+
+end KernelTie
 
 open Pyunicorn.Generated in
 /-- the denominator of the model's `avgPathLength` is the source expression
@@ -1011,6 +1222,35 @@ example : NetBetw.nsiBetweenness 4 c4 w4 [true, true, true, true] [0, 3]
 example : NetBetw.sweepDiff 4 c4 w4 [true, true, true, true] 0 1
     = NetBetw.contribDef 4 c4 w4 (dist 4 c4) [true, true, true, true] 0 1 := by decide +kernel
 example : NetBetw.nsiBetweenness 4 c4 w4 [true, true, true, true] [0, 3] ≠ [0, 0, 0, 0] := by decide +kernel
+/-- the hypotheses of `nsiBetweenness_eq_def` hold for the weighted 4-cycle (symmetric, positive weights,
+targets `< 4`), so the theorem applies to an instance where both sides are non-zero -/
+theorem c4_symm : ∀ x y, c4 x y = c4 y x := by
+  intro x y
+  simp only [c4, List.mem_cons, Prod.mk.injEq, List.not_mem_nil, or_false, decide_eq_decide]
+  omega
+theorem w4_pos : ∀ v, v < 4 → 0 < w4 v := by
+  intro v hv
+  have : v = 0 ∨ v = 1 ∨ v = 2 ∨ v = 3 := by omega
+  rcases this with rfl | rfl | rfl | rfl <;> decide +kernel
+example : NetBetw.nsiBetweenness 4 c4 w4 [true, false, true, true] [3, 0, 3]
+    = NetBetw.nsiBetweennessDef 4 c4 w4 (dist 4 c4) [true, false, true, true] [3, 0, 3] :=
+  nsiBetweenness_eq_def 4 c4 c4_symm w4 w4_pos _ _ (by decide)
+example : NetBetw.FwdOK 4 c4 w4 0 (NetBetw.offsetsOf (NetBetw.degArr 4 c4))
+    (NetBetw.forward (NetBetw.offsetsOf (NetBetw.degArr 4 c4)) (NetBetw.degArr 4 c4) (NetBetw.flatArr 4 c4)
+      w4 4 0 (NetBetw.fwdInit 4 w4 (NetBetw.flatArr 4 c4).length 0)) :=
+  nsiBetweenness_forward_phase 4 c4 c4_symm w4 0 (by decide)
+example : (NetBetw.nsiBetweenness 4 c4 w4 [true, false, true, true] [3, 0, 3]).getD 1 0
+    = NetBetw.nsiBetweennessEnum 4 c4 w4 (dist 4 c4) [true, false, true, true] [3, 0, 3] 1 :=
+  nsiBetweenness_eq_enumeration 4 c4 c4_symm w4 w4_pos _ _ (by decide) 1 (by decide)
+example : (NetBetw.nsiBetweenness 4 c4 w4 [true, false, true, true] [3, 0, 3]).getD 1 0 ≠ 0 := by
+  decide +kernel
+example : NetBetw.interregionalCount 4 c4 (dist 4 c4) [0, 3] [3, 0] 1 = 1 := by decide +kernel
+example : (NetBetw.interregionalBetweenness 4 c4 w4 (some [0, 3]) (some [3, 0])).getD 1 0
+    = NetBetw.interregionalCount 4 c4 (dist 4 c4) [0, 3] [3, 0] 1 :=
+  interregionalBetweenness_eq_count 4 c4 c4_symm w4 _ _ (by decide) 1 (by decide)
+example : (NetBetw.forward (NetBetw.offsetsOf (NetBetw.degArr 4 c4)) (NetBetw.degArr 4 c4)
+      (NetBetw.flatArr 4 c4) w4 4 0 (NetBetw.fwdInit 4 w4 (NetBetw.flatArr 4 c4).length 0)).queue
+    = [0, 1, 2, 3] := by decide +kernel
 example : avgPathLengthU 5 (dist 5 p4iso) = some (5 / 3) ∧ diameter 5 (dist 5 p4iso) = 3 := by decide +kernel
 
 /-! ## Round 4
